@@ -1,6 +1,7 @@
 package fs
 
 import (
+	"bytes"
 	"context"
 	"encoding/base64"
 	"errors"
@@ -160,6 +161,9 @@ func (fdb *fsDb) Close(ctx context.Context) error {
 // create a key safe for the filesystem.
 func (fdb *fsDb) pathFor(ctx context.Context, lk *db.LookupKey) (fsLookupKey, error) {
 	var flk fsLookupKey
+	if bytes.ContainsRune(lk.Default[1:], '/') {
+		return flk, fmt.Errorf("key contains path separator: %x", lk.Default[1:])
+	}
 	lk.Default[0] += 0x30
 	flk.Default = path.Join(fdb.dir, string(lk.Default))
 	if lk.Translation != nil {
